@@ -119,7 +119,9 @@ def _start_guard(spec):
         return
     _GUARD["started"] = True
     max_rss = int(os.environ.get("VERIF_SHARD_MAX_RSS_MB", "12000")) * 1024 * 1024
-    max_wall = float(os.environ.get("VERIF_SHARD_MAX_WALL_S", "14400"))
+    # the quick tier's shards take seconds; one that is still running after 20 minutes is not going
+    # to finish (thorough shards may legitimately run for an hour)
+    max_wall = float(os.environ.get("VERIF_SHARD_MAX_WALL_S", "1200" if _GUARD.get("tier") == "quick" else "14400"))
     page = os.sysconf("SC_PAGE_SIZE")
     parent = os.getppid()
 
@@ -370,6 +372,7 @@ def run_check(modname, prop, tier, seed):
 
     # 2. generated search
     specs = mod.shards(tier)
+    _GUARD["tier"] = tier  # inherited by the forked workers
     # a shard's seed depends on what the shard is, not on its position in the list, so that adding
     # a shard does not reshuffle the others
     seen = {}
